@@ -977,6 +977,11 @@ class Collection(object):
                 # revert modifications
                 self._ensure_uniques(existing_document)
                 num_updated += 1
+            else:
+                # Equal (==) is not identical: 1 -> 1.0 or a new key order count as "not
+                # modified", but the document was rewritten in place all the same and an
+                # index (e.g. a partial one on {'$type': ...}) can tell the difference.
+                self._ensure_uniques(existing_document)
 
             del rollback[:]
             if not multi:
